@@ -16,6 +16,7 @@ import (
 	ssi "github.com/nuts-foundation/go-did"
 	"github.com/nuts-foundation/go-did/vc"
 	"github.com/nuts-foundation/nuts-node/jsonld"
+	"github.com/piprate/json-gold/ld"
 
 	"verif/enum"
 	"verif/ev"
@@ -253,6 +254,12 @@ func TestVerifC01(t *testing.T) {
 				// the mutant contains terms the JSON-LD context does not define: canonicalisation drops them silently
 				cls = "undefined-term|" + d.Kind + "-" + d.Format + "|" + loc
 				what = fmt.Sprintf("%s still verifies after %s: members / values that the JSON-LD context does not define are dropped by canonicalisation and are not covered by the proof, yet the node returns and stores them (the issuer's own AllFieldsDefined check refuses this document)", d.Name, desc)
+			} else if !strings.HasPrefix(m.Path, "/proof") && (m2 == nil || !strings.HasPrefix(m2.Path, "/proof")) && sameCanonicalForm(e, d.Raw, b) {
+				// every term is defined, yet JSON-LD itself (the REFERENCE URDNA2015 canonicalisation of json-gold, not the node's
+				// wrapper) gives both documents the same canonical form: a VALUE is dropped (e.g. a string that is no absolute IRI
+				// as a further value of an @id-typed member) - same root cause as undefined terms, not a flaw of the node's proof check
+				cls = "unprotected-value|" + d.Kind + "-" + d.Format + "|" + loc
+				what = fmt.Sprintf("%s still verifies after %s: the reference JSON-LD canonicalisation gives the changed document the same canonical form (a value that is not a valid node reference is dropped), so no proof can cover it, yet the node's reading of the document (go-did) returns it", d.Name, desc)
 			}
 			r.Outcome("tamper accepted, observation CHANGED")
 			if m2 == nil {
@@ -462,6 +469,36 @@ func tamperJWT(e *env, r *ev.Run, d baseDoc, o0 string, idx *int, replay bool, r
 				fmt.Sprintf("%s still verifies after %s (%s)", d.Name, m.Desc(), mode), caseC01{Clause: "tamper", Doc: d.Name, Op: m.Op, Path: m.Path, Input: string(b)})
 		}
 	}
+}
+
+// sameCanonicalForm: do the two documents (their top-level proof left out) have the same URDNA2015 canonical form according
+// to json-gold itself (trusted base), with the node's embedded contexts.
+func sameCanonicalForm(e *env, a, b []byte) bool {
+	canon := func(raw []byte) (out string, ok bool) {
+		defer func() {
+			if recover() != nil {
+				ok = false
+			}
+		}()
+		var m map[string]any
+		if json.Unmarshal(raw, &m) != nil {
+			return "", false
+		}
+		delete(m, "proof")
+		opts := ld.NewJsonLdOptions("")
+		opts.DocumentLoader = e.loader.DocumentLoader()
+		opts.Format = "application/n-quads"
+		opts.Algorithm = "URDNA2015"
+		res, err := ld.NewJsonLdProcessor().Normalize(m, opts)
+		if err != nil {
+			return "", false
+		}
+		str, isStr := res.(string)
+		return str, isStr
+	}
+	ca, ok1 := canon(a)
+	cb, ok2 := canon(b)
+	return ok1 && ok2 && ca == cb
 }
 
 // ---------------------------------------------------------------------------------- small JSON helpers
